@@ -6,7 +6,7 @@
 //! prints and the final dump that follow every print in the same run.
 
 use super::common::*;
-use crate::alu::W;
+use crate::alu::*;
 use crate::ast::b::*;
 use crate::ast::*;
 use crate::cli::*;
